@@ -34,3 +34,19 @@ P['C02'] = {
     ],
     'not_covered': ['NCReadStream / NCWriteStream drop tags by design (TODO in source)', 'src/stream.rs wrappers'],
 }
+
+P['C13'] = {
+    'units': ['kani:hdlc'],
+    'technique': 'Kani/CBMC full-domain proofs of the HDLC kernels (bits2byte, calc_crc+FCSTAB) on the compiled crate',
+    'level_text': 'Kernel level only: bits2byte equals the LSB-first sum for all 256 bit vectors; calc_crc equals the bit-at-a-time CRC-16/X.25 definition for every message of length 1 and 2 (quick) and 3, 4 (thorough), which pins all 256 FCSTAB entries and the byte-composition step. The framing automaton (update_state / work) is NOT decided.',
+    'level_note': 'Complete per stated message length (labelled bounded in evidence); arbitrary-length CRC and the framing state machine (owned Vec swapped through an enum, iterator-built byte vectors) are outside Verus\' subset and Kani cannot run a stream. Kani/CBMC trusted.',
+    'not_covered': ['HdlcDeframer::work / update_state (framing automaton, bit unstuffing, size bounds, bit fixing)', 'calc_crc for messages longer than 4 bytes'],
+    'assumptions': ['a block-level decision of C13 (every valid frame recovered in any chunking) is not made by this check'],
+}
+P['C14'] = {
+    'units': ['kani:codecs'],
+    'technique': 'Kani/CBMC loop-free full-domain proofs of Sample::{serialize,parse,size} for u8,u32,i32,f32,Complex',
+    'level_text': 'Codec half only: parse(serialize(x)) is bit-identical to x for every bit pattern (NaN payloads included), serialize(x).len() == size(), parse never errs on size() bytes and serialize(parse(d)) == d for every byte pattern; Complex wire order I then Q, little endian. File/TCP/SigMF/AU halves are NOT decided.',
+    'level_note': 'Loop-free harnesses over the full input domain are complete proofs. FileSource, TcpSource, SigMFSource, AuEncode/AuDecode use BufReader, sockets, tar, serde_json and iterator chains: outside Verus\' subset; Kani cannot run streams.',
+    'not_covered': ['FileSource / FileSink round trip', 'TcpSource read segmentation', 'SigMFSource (recording, archive)', 'AuEncode / AuDecode', 'Sample for String (TODO in source)'],
+}
